@@ -499,7 +499,7 @@ func init() {
 					}
 					return 0, false, false
 				}
-				be := &boolExec{fn: sf, atoms: atoms, n: 2}
+				be := &boolExec{fn: sf, atoms: atoms, n: 2, inline: true}
 				ok, cex, n := be.impliedAt(site.Block(), func(asg uint) bool { return asg&1 != 0 || asg&2 != 0 })
 				switch {
 				case n == 0:
@@ -570,25 +570,32 @@ func init() {
 			cnt := c.MustFn("(*PostingsList).Count")
 			key = fnName(cnt) + "/subtracts-excluded"
 			hasAnd, hasContains, sub := false, false, false
-			for _, b := range cnt.Blocks {
-				for _, ins := range b.Instrs {
-					switch x := ins.(type) {
-					case *ssa.Call:
-						if sc := x.Call.StaticCallee(); sc != nil {
-							if sc.Name() == "AndCardinality" && exprSig(x.Call.Args[0], 0) == ".postings" && exprSig(x.Call.Args[1], 0) == ".except" {
-								hasAnd = true
+			// (in Count itself or in small predicate helpers of the list it calls, their
+			// parameters read as the arguments)
+			c.withHelpers(cnt, 1, func(f *ssa.Function, subst map[*ssa.Parameter]ssa.Value) {
+				if f != cnt && (f.Signature.Recv() == nil || len(f.Blocks) > 6) {
+					return
+				}
+				for _, b := range f.Blocks {
+					for _, ins := range b.Instrs {
+						switch x := ins.(type) {
+						case *ssa.Call:
+							if sc := x.Call.StaticCallee(); sc != nil {
+								if sc.Name() == "AndCardinality" && exprSig(x.Call.Args[0], 0) == ".postings" && exprSig(x.Call.Args[1], 0) == ".except" {
+									hasAnd = true
+								}
+								if sc.Name() == "Contains" && exprSig(x.Call.Args[0], 0) == ".except" && strings.Contains(exprSigWith(x.Call.Args[1], 0, subst), ".docNum1Hit") {
+									hasContains = true
+								}
 							}
-							if sc.Name() == "Contains" && exprSig(x.Call.Args[0], 0) == ".except" && strings.Contains(exprSig(x.Call.Args[1], 0), ".docNum1Hit") {
-								hasContains = true
+						case *ssa.BinOp:
+							if x.Op == token.SUB && f == cnt {
+								sub = true
 							}
-						}
-					case *ssa.BinOp:
-						if x.Op == token.SUB {
-							sub = true
 						}
 					}
 				}
-			}
+			})
 			if hasAnd && hasContains && sub {
 				r.ok(key, fnName(cnt), c.pos(cnt.Pos()), "n - |postings ∩ except| (1-hit: except.Contains(docNum1Hit))")
 			} else {
